@@ -157,8 +157,25 @@ class World:
         return sorted(nm(x) for x in s)
 
     def check(self):
+        # the order of the questions varies: an object may be asked what it provides before anybody has asked its (new,
+        # undeclared) class for its specification, a class may be asked providedBy() before implementedBy(), ...
+        r = self.rng.random()
+        if r < 0.5:
+            self._check_classes()
+            self._check_objs()
+        else:
+            self.ctx.count('checks_asking_objects_before_classes')
+            self._check_objs()
+            self._check_classes()
+
+    def _check_classes(self):
         ctx = self.ctx
-        for c in self.classes:
+        order = list(self.classes)
+        if self.rng.random() < 0.5:
+            self.rng.shuffle(order)
+        for c in order:
+            if self.rng.random() < 0.3:
+                providedBy(c)
             a = self.actual_c(c)
             L = self.cbound(c, 'L')
             U = self.cbound(c, 'U')
@@ -180,7 +197,15 @@ class World:
                 ctx.violation('class-provides-bounds', {'cls': c.__name__,
                                                         'got': self.names(pa), 'must': self.names(self.closure(pm)),
                                                         'may': self.names(self.closure(py))})
-        for o in self.objs:
+
+    def _check_objs(self):
+        ctx = self.ctx
+        order = list(self.objs)
+        if self.rng.random() < 0.5:
+            self.rng.shuffle(order)
+        for o in order:
+            if self.rng.random() < 0.3 and self.ifaces:
+                self.ifaces[0].providedBy(o)
             a = self.actual_o(o)
             L = self.obound(o, 'L')
             U = self.obound(o, 'U')
@@ -233,10 +258,21 @@ class World:
                     ctx.ev()
                     if bool(i.providedBy(s)) != (i in a):
                         ctx.violation('super-providedBy-disagree', {'obj': o.zname, 'thisclass': C.__name__, 'iface': nm(i)})
+                # the order in which the rest of the MRO is seen: nearest class first, i.e. the C3 merge over the
+                # specifications of the remaining classes in MRO order (computed by the harness, not read back)
+                own = util.c3_of_bases([implementedBy(k) for k in tail])
+                spec = providedBy(s)
+                if own is not None:
+                    want = [x for x in own[1:] if isinstance(x, InterfaceClass) and x is not Interface]
+                    have = [x for x in spec.__iro__ if x is not Interface]
+                    ctx.ev()
+                    ctx.count('super_resolution_orders_compared')
+                    if len(want) != len(have) or any(a is not b for a, b in zip(want, have)):
+                        ctx.violation('super-resolution-order', {'obj': o.zname, 'thisclass': C.__name__,
+                                                                 'got': util.nm(have), 'expected': util.nm(want)})
                 if registry is not None:
-                    spec = providedBy(s)
                     exp = None
-                    for x in spec.__sro__:
+                    for x in (own[1:] if own is not None else spec.__sro__):
                         if x in facs:
                             exp = facs[x]
                             break
